@@ -10,14 +10,14 @@ import Verif.Impl.Loops
 namespace Verif.Impl
 open Verif
 
-/-- rows of at most 16 addresses, in visiting order (`byteCount == 15` ends a line) -/
-def chunk16 : List Nat → List (List Nat)
-  | [] => []
-  | a :: as =>
-    let row := (a :: as).take 16
-    row :: chunk16 ((a :: as).drop 16)
-termination_by l => l.length
-decreasing_by simp; omega
+/-- rows of at most 16 addresses, in visiting order (`byteCount == 15` ends a line);
+    structural recursion on a fuel that the list length always covers -/
+def chunkF : Nat → List Nat → List (List Nat)
+  | 0, _ => []
+  | _ + 1, [] => []
+  | f + 1, a :: as => (a :: as).take 16 :: chunkF f ((a :: as).drop 16)
+
+def chunk16 (l : List Nat) : List (List Nat) := chunkF l.length l
 
 /-- the lines of a dump: `none` when the loop does not terminate within the fuel -/
 def dumpRows (bits : Nat) (start stop : Nat) (fuel : Nat) : Option (List (List Nat)) :=
@@ -50,21 +50,25 @@ def isDigitC (c : Char) : Bool := '0' ≤ c && c ≤ '9'
 def allDigits (cs : List Char) : Bool := !cs.isEmpty && cs.all isDigitC
 def decVal (cs : List Char) : Nat := cs.foldl (fun n c => n * 10 + (c.toNat - 48)) 0
 
-/-- `^([0-9]+):([0-9]+)$`, `ParseUint(.., 10, 16)` twice, length ≠ 0, and the uint16 wrap test
-    `(dumpAddress16 + dumpLen16 - 1) < dumpAddress16`.  The empty string means "no dump" and is
-    handled by the callers before this point. -/
+/-- the numeric part: `ParseUint(.., 10, 16)` range, length ≠ 0, and the uint16 wrap test
+    `(dumpAddress16 + dumpLen16 - 1) < dumpAddress16` -/
+def validateDump (addr len : Nat) : Option (Nat × Nat) :=
+  if addr > 65535 ∨ len > 65535 then none
+  else if len = 0 then none
+  else if (addr + len + 65535) % 65536 < addr then none
+  else some (addr, len)
+
+/-- `^([0-9]+):([0-9]+)$` followed by the numeric validation.  The empty string means "no dump" and
+    is handled by the callers before this point. -/
+def notColon (c : Char) : Bool := c != ':'
+
 def parseDumpParams (s : List Char) : Option (Nat × Nat) :=
-  let a := s.takeWhile (· ≠ ':')
-  match s.dropWhile (· ≠ ':') with
-  | ':' :: b =>
-    if allDigits a && allDigits b then
-      let addr := decVal a
-      let len := decVal b
-      if addr > 65535 ∨ len > 65535 then none
-      else if len = 0 then none
-      else if (addr + len + 65535) % 65536 < addr then none
-      else some (addr, len)
+  match s.dropWhile notColon with
+  | c :: b =>
+    if c = ':' then
+      if allDigits (s.takeWhile notColon) && allDigits b then validateDump (decVal (s.takeWhile notColon)) (decVal b)
+      else none
     else none
-  | _ => none
+  | [] => none
 
 end Verif.Impl
